@@ -169,7 +169,9 @@ def step (st : St) (toks : List String) : St × String :=
           | none => true
           | some r => lst.contains r
         else mt = "1"
-      let r := route st.handle.active st.writers lvl t m mbit
+      -- the log facade's macros call `Log::log` only for `level <= log::max_level()`
+      let r := if lvl ≤ st.handle.gate then route st.handle.active st.writers lvl t m mbit
+               else ⟨false, [], false⟩
       if r.panic then (st, "panic") else
       -- receipts are observable for recording (custom) writers only
       let ws := r.deliveries.filterMap (fun d => match d with
